@@ -330,7 +330,20 @@ pub fn run(ctx: &Ctx) -> Report {
             case.via_run_on_stream = i % 2 == 0;
             let clean = run_case(&case);
             let mut faulty = case.clone();
-            faulty.fault = crate::transport::Fault { eof_after: None, err_at: Some(clean.world.nops), persistent: true, err_kind: (i % 3) as u8 };
+            // "after the verdict": from the operation behind the flush that put the last byte of the
+            // undisturbed run's output in front of the client - provided the server did not read after
+            // that flush (a rejected login: it does not); otherwise from the operation behind the last
+            // one of the undisturbed run
+            let total = clean.world.visible.len();
+            let delivered = clean.world.flush_log.iter().find(|f| f.1 >= total && clean.world.pending.is_empty()).map(|f| f.0);
+            let from = match delivered {
+                Some(k) if clean.world.last_read_idx.map_or(true, |r| r < k) => {
+                    rep.counters.inc("transports_that_die_right_behind_the_flush_of_the_verdict");
+                    k + 1
+                }
+                _ => clean.world.nops,
+            };
+            faulty.fault = crate::transport::Fault { eof_after: None, err_at: Some(from), persistent: true, err_kind: (i % 3) as u8 };
             let obs = run_case(&faulty);
             rep.evaluations += 1;
             if harness_panic(&obs, rep) || harness_panic(&clean, rep) {
@@ -338,7 +351,7 @@ pub fn run(ctx: &Ctx) -> Report {
             }
             let entry = if case.via_run_on_stream { "run_on_stream" } else { "run_on" };
             rep.counters.class(format!("peer gone after the verdict: {}, {}", if reject { "rejected" } else { "accepted" }, entry));
-            let d = || J::obj().set("user", show(&user)).set("shim", if reject { "rejects" } else { "accepts" }).set("entry_point", entry).set("transport", format!("every operation from #{} on fails", clean.world.nops)).set("undisturbed_outcome", clean.outcome.describe()).set("outcome", obs.outcome.describe()).set("faulted_operation", format!("{:?}", obs.world.fault_op));
+            let d = || J::obj().set("user", show(&user)).set("shim", if reject { "rejects" } else { "accepts" }).set("entry_point", entry).set("transport", format!("every operation from #{} on fails (the undisturbed run performs {})", from, clean.world.nops)).set("undisturbed_outcome", clean.outcome.describe()).set("outcome", obs.outcome.describe()).set("faulted_operation", format!("{:?}", obs.world.fault_op));
             if i < 2 {
                 rep.sample(d());
             }
